@@ -4,7 +4,7 @@
    regenerated from the source (Gen/DedupFacts.v) are parameters of the functions here.  No proofs. *)
 From Coq Require Import NArith Bool List.
 Import ListNotations.
-From XetModel Require Import Base.Codec Gen.ShardLayout Model.Merkle Model.Shard.
+From XetModel Require Import Base.Codec Gen.ShardLayout Gen.DedupFacts Model.Merkle Model.Shard.
 Open Scope N_scope.
 
 Definition chunk := (hash * N)%type.       (* chunk hash, data length *)
@@ -189,7 +189,9 @@ Definition add_new_chunk (cf : dcfg) (f : fd) (c : chunk) : fd :=
   mkFD (f_new f ++ [c]) ((hkey (fst c), nlen) :: f_lookup f) (f_hashes f) (f_info f) (f_iref f) (f_defrag f) (f_metrics f)
        (f_new_xorbs f) (f_registered f).
 
-Definition step (booked_before_decision : bool) (cf : dcfg) (f : fd) (c : chunk) (rest_hashes : list hash) (ans : option (N * seg)) : fd * N :=
+(* [whole_run]: generated fact -- a rejected dedup answer adds the whole run it covered to the "withheld by fragmentation
+   prevention" counters (true), or the one chunk that is stored as new data because of the decision (false). *)
+Definition step_with (whole_run : bool) (booked_before_decision : bool) (cf : dcfg) (f : fd) (c : chunk) (rest_hashes : list hash) (ans : option (N * seg)) : fd * N :=
   let q := match ans with Some a => Some a | None => local_query f rest_hashes end in
   match q with
   | Some (n, s) =>
@@ -200,9 +202,10 @@ Definition step (booked_before_decision : bool) (cf : dcfg) (f : fd) (c : chunk)
         let '(ok, d') := d_allow cf (f_defrag f1) n in
         let f2 := with_defrag f1 d' in
         if ok then (add_fse cf (if booked_before_decision then f2 else with_metrics f2 (bump_dedup (f_metrics f2) n (sg_bytes s))) s n, n)
-        else (add_new_chunk cf (with_metrics f2 (bump_defrag (f_metrics f2) n (sg_bytes s))) c, 1)
+        else (add_new_chunk cf (with_metrics f2 (bump_defrag (f_metrics f2) (if whole_run then n else 1) (if whole_run then sg_bytes s else snd c))) c, 1)
   | None => (add_new_chunk cf f c, 1)
   end.
+Definition step := step_with defrag_counts_whole_run.
 
 (* process_chunks: [answers] = the pass-1 answers per position (what the data interface returned for the suffix
    starting there; positions skipped by an earlier answer are never asked and must carry None) *)
